@@ -52,26 +52,31 @@ def confirm(pid, name=None):
     return ok
 
 def detect(name, pids, tier="quick", seed=1):
+    """Runs the checks against a scratch worktree of /repo HEAD with the patch applied (VERIF_REPO), so
+    that /repo itself stays clean while background runs use it. (The first 13 seeds were additionally
+    evaluated the prescribed way: git -C /repo apply; ./check; git -C /repo checkout -- .)"""
     d = f"/verif/seeded/{name}"
     meta = json.load(open(f"{d}/meta.json"))
     pids = pids or [meta["breaks_property"]]
-    rc, o = sh("git status --porcelain", "/repo")
-    if o.strip():
-        print("refusing: /repo working tree is not clean:\n" + o); return
-    rc, o = sh(f"git apply {d}/patch.diff", "/repo")
+    wt = f"/tmp/seedrun-{name}"
+    subprocess.run(["git", "-C", "/repo", "worktree", "remove", "--force", wt], capture_output=True)
+    subprocess.run(["git", "-C", "/repo", "worktree", "add", "--detach", wt, "HEAD"], check=True, capture_output=True)
+    rc, o = sh(f"git apply {d}/patch.diff", wt)
     if rc != 0:
         print("patch does not apply:", o); return
     res = meta.setdefault("detection", {})
     try:
         for pid in pids:
             t0 = time.time()
-            r = subprocess.run(["./check", pid, "--tier", tier], cwd="/verif", env=dict(os.environ, VERIF_SEED=str(seed)), capture_output=True, text=True)
-            line = [l for l in r.stdout.splitlines() if l.startswith("VIOLATION property")]
+            env = dict(os.environ, VERIF_SEED=str(seed), VERIF_REPO=wt)
+            r = subprocess.run(["./check", pid, "--tier", tier], cwd="/verif", env=env, capture_output=True, text=True)
             first = [l for l in r.stdout.splitlines() if "VIOLATION" in l][:1]
+            # evidence of this run describes the mutated tree: restore the committed file
+            subprocess.run(["git", "-C", "/verif", "checkout", "--", f"evidence/{pid}.json"], capture_output=True)
             res[f"{pid}/{tier}/seed{seed}"] = dict(exit=r.returncode, detected=r.returncode == 1, wall_s=round(time.time() - t0, 1), first=(first[0][:400] if first else r.stdout[-300:]))
-            print(name, pid, tier, "seed", seed, "->", "DETECTED" if r.returncode == 1 else f"exit {r.returncode}", (first[0][:300] if first else ""), flush=True)
+            print(name, pid, tier, "seed", seed, "->", "DETECTED" if r.returncode == 1 else f"exit {r.returncode}", (first[0][:300] if first else r.stdout[-200:]), flush=True)
     finally:
-        sh("git checkout -- .", "/repo")
+        subprocess.run(["git", "-C", "/repo", "worktree", "remove", "--force", wt], capture_output=True)
     json.dump(meta, open(f"{d}/meta.json", "w"), indent=1)
 
 if __name__ == "__main__":
